@@ -1327,7 +1327,30 @@ func (fr *Frame) newComps(tn string) []modEntry {
 }
 
 func (fr *Frame) staticType(e string, pt map[string]types.Type) types.Type {
-	parts := strings.Split(strings.TrimSpace(e), ".")
+	e = strings.TrimSpace(e)
+	if strings.HasPrefix(e, "type:") {
+		// type:pkg.T.field... : a named type (not a parameter) followed by a field path
+		e = strings.TrimPrefix(e, "type:")
+		segs := strings.Split(e, ".")
+		for n := len(segs); n >= 1; n-- {
+			if t := fr.fx.E.typeByName(strings.Join(segs[:n], ".")); t != nil {
+				cur := t
+				for _, p := range segs[n:] {
+					if ptr := derefType(cur); ptr != nil {
+						cur = ptr
+					}
+					_, ft := fieldPath(cur, p)
+					if ft == nil {
+						specFail("no field %s in %s", p, cur)
+					}
+					cur = ft
+				}
+				return cur
+			}
+		}
+		specFail("unknown type in %s", e)
+	}
+	parts := strings.Split(e, ".")
 	cur := pt[parts[0]]
 	if cur == nil {
 		specFail("unknown parameter %s", parts[0])
